@@ -14,9 +14,10 @@
      working chip when there are vertices ([up_some_chip]) and dictionaries without repeated keys.  [wf_problem]
      excludes vertices needing a resource the machine does not list (rig ignores such keys: documented domain).
    * [feas_capacity] counts a capacity left negative by reservations as 0 (the empty placement is feasible).
-   * Vertex orders of breadth_first / RCM and the RCM chip order come out of set iteration in CPython and are NOT
-     modelled: they are INPUTS of the model; that they list every vertex / working chip exactly once, terminate and
-     raise nothing is checked per instance by the harness only.  The Hilbert order is modelled and proved.
+   * The vertex order of RCM and the RCM chip order come out of set iteration in CPython and are NOT modelled: they are
+     INPUTS of the model; that they list every vertex / working chip exactly once, terminate and raise nothing is
+     checked per instance by the harness only.  The Hilbert order is modelled and proved; the breadth-first vertex
+     order is modelled with the set choices as oracles and proved for every oracle (end of this file).
    * Simulated annealing: proved are soundness (initial placement, every kernel step, any number of steps), and for the
      part of place() before the kernel (constraints, shuffles, initial placement; also the trivial exit) documented
      errors and completeness.  NOT proved for the annealing loop itself: termination of the float temperature
@@ -25,7 +26,8 @@
    * C02_seq_place_terminates is true BY CONSTRUCTION of the model (see there). *)
 From Coq Require Import ZArith List Bool.
 Require Import Rig.Model.Base Rig.Model.Place Rig.Spec.Place Rig.Proofs.Place Rig.Proofs.PlaceCore
-        Rig.Proofs.PlaceMerge Rig.Proofs.PlaceSeq Rig.Proofs.PlaceComplete Rig.Proofs.PlaceSA Rig.Proofs.PlaceErrors Rig.Proofs.PlaceHilbert Rig.Proofs.PlaceEntry.
+        Rig.Proofs.PlaceMerge Rig.Proofs.PlaceSeq Rig.Proofs.PlaceComplete Rig.Proofs.PlaceSA Rig.Proofs.PlaceErrors Rig.Proofs.PlaceHilbert Rig.Proofs.PlaceEntry
+        Rig.Model.BFOrder Rig.Proofs.BFOrder.
 Import ListNotations.
 Open Scope Z_scope.
 
@@ -309,3 +311,46 @@ Example C02_complete_premise_satisfiable :
   /\ seq_place exc_vr exc_m exc_cs (Some [3; 1; 2]) (Some [(1, 0); (5, 5); (0, 0)])
      = Ok [(1, (1, 0)); (3, (1, 0)); (2, (0, 0))].
 Proof. exact exc_instance. Qed.
+
+(* ---------------------------------------------------------------------------------------------------------- *)
+(* breadth_first_vertex_order (Model/BFOrder.v; statements shape-checked from breadth_first.py on every run,   *)
+(* gen_bf_order_shape_checked).  What CPython's sets leave open -- which member pop() removes, in which order  *)
+(* a set is iterated -- is an oracle pair (pick, arr); the theorems hold for EVERY pair that returns a member  *)
+(* of a non-empty set / each member of a set once.  The check replays every real order in this model           *)
+(* (bf_order_replayb, obligations corr:bf_order / corr:hilbert bf_order).                                      *)
+(* ---------------------------------------------------------------------------------------------------------- *)
+
+(* The order lists every vertex of vertices_resources exactly once and nothing else (vertices that only occur in
+   nets are never yielded): the premise C02_seq_place_sound asks of a vertex order, and the documented one. *)
+Theorem C02_bf_order_lists_every_vertex_exactly_once :
+  forall pick arr nets vs,
+    pick_ok pick -> arr_ok arr -> NoDup vs ->
+    NoDup (bf_order pick arr nets vs) /\ (forall v, In v (bf_order pick arr nets vs) <-> In v vs).
+Proof. exact bf_order_exact. Qed.
+
+(* The generator stops because queue and set are both empty -- after exactly one yield per vertex; the fuel of the
+   model (one unit per vertex) is never what ends the loop. *)
+Theorem C02_bf_order_length :
+  forall pick arr nets vs,
+    pick_ok pick -> arr_ok arr -> NoDup vs ->
+    length (bf_order pick arr nets vs) = length vs.
+Proof. exact bf_order_length. Qed.
+
+(* breadth_first.place with its own order: soundness with no premise on the order left. *)
+Theorem C02_bf_place_sound_any_set_order :
+  forall pick arr vr nets m cs chip_order pl,
+    pick_ok pick -> arr_ok arr -> NoDup (map fst vr) ->
+    wf_problem vr m cs -> consistent cs ->
+    bf_place_full pick arr vr nets m cs chip_order = Ok pl ->
+    Feasible vr m cs pl.
+Proof. exact bf_place_full_sound. Qed.
+
+(* Non-vacuity: two components, a vertex that only occurs in a net (9), a self-loop; the oracles read off the
+   observed order [3; 1; 2; 5; 4] reproduce it, and they are legitimate on every set they are asked about. *)
+Example C02_bf_order_example :
+  bf_order (pick_real [3; 1; 2; 5; 4]) (arr_real [3; 1; 2; 5; 4]) [(1, [2; 3]); (4, [5; 9]); (2, [2])] [1; 2; 3; 4; 5]
+  = [3; 1; 2; 5; 4]
+  /\ bf_order_replayb [(1, [2; 3]); (4, [5; 9]); (2, [2])] [1; 2; 3; 4; 5] [3; 1; 2; 5; 4] = true
+  /\ bf_order_replayb [(1, [2; 3]); (4, [5; 9]); (2, [2])] [1; 2; 3; 4; 5] [3; 2; 1; 5] = false
+  /\ bf_order_replayb [(1, [2; 3]); (4, [5; 9]); (2, [2])] [1; 2; 3; 4; 5] [1; 4; 2; 3; 5] = false.
+Proof. exact bf_order_example. Qed.
